@@ -1,0 +1,20 @@
+//go:build verif
+
+package types
+
+// VerifPeek is a read-only observer of the transaction slot: the id of the open
+// transaction (if any) and whether its rollback timer is currently armed.
+func (t *TransactionManager) VerifPeek() (id string, open bool, timerArmed bool) {
+	t.tmMutex.Lock()
+	defer t.tmMutex.Unlock()
+	if t.transaction == nil {
+		return "", false, false
+	}
+	tr := t.transaction
+	if tr.timer != nil {
+		tr.timer.doneMutex.Lock()
+		timerArmed = tr.timer.done != nil
+		tr.timer.doneMutex.Unlock()
+	}
+	return tr.transactionId, true, timerArmed
+}
